@@ -31,7 +31,7 @@ struct X {
   W w;
   req_t reqs[VK_REQS]; int nreq = 0;
   ack_t acks[16]; int nacks = 0;
-  int nreconn = 0, nbad = 0, nearly = 0, npartial = 0;
+  int nreconn = 0, nbad = 0, nearly = 0, npartial = 0, bad_epoch = -1;
   uint8_t first_tx[VK_REQS][48]; size_t first_tx_len[VK_REQS]; bool have_first[VK_REQS]; int tx_ok_before[VK_REQS];
 
   // ---- helpers over the packet log
@@ -151,7 +151,7 @@ struct X {
   }
   void ev_bad_packet() {
     if (nbad >= 1 || !w.connected() || nreq == 0) vk_assume(0);
-    nbad++;
+    nbad++; bad_epoch = w.epoch;
     uint16_t pid = 0; uint8_t t = owed(pid); if (!t) { t = ref::PUBACK; pid = 1; }
     switch (vk_choose(4)) {
       case 0: log_ack(t, (uint16_t)(pid + 7), 0, false, false); w.ack(t, (uint16_t)(pid + 7), 0, 1); break;                    // right type, identifier nobody uses
@@ -200,7 +200,17 @@ struct X {
   bool early_mode = false; bool early_req[VK_REQS] = {}; bool lost_tx[VK_REQS] = {}; int early_from = -1;   // first packet of the write the broker obtained early
   void on_new_packets(int from) {
     for (int i = from; i < w.npk; i++) {
-      const pkt_rec& r = w.pk[i]; if (r.type != ref::PUBLISH || r.qos == 0) continue;
+      const pkt_rec& r = w.pk[i];
+#if VK_MODE == 3
+      // PUBREL is (re)transmitted only until PUBCOMP arrives: none once a well-formed PUBCOMP (any listed code) for the exchange was consumed
+      if (r.type == ref::PUBREL)
+        for (int a = 0; a < nacks; a++)
+          if (acks[a].valid && acks[a].type == ref::PUBCOMP && acks[a].consumed && !acks[a].parked && acks[a].pid == r.pid && acks[a].after_pk <= i) {
+            bool new_exchange = false; for (int j = acks[a].after_pk; j < i; j++) if (w.pk[j].type == ref::PUBLISH && w.pk[j].pid == r.pid) new_exchange = true;
+            if (!new_exchange) vk_assert(false, "PUBREL transmitted again after the PUBCOMP for it was consumed (the exchange does not end)");
+          }
+#endif
+      if (r.type != ref::PUBLISH || r.qos == 0) continue;
       int q = req_of(r); vk_assert(q >= 0, "PUBLISH on the wire that no request asked for");
 #if VK_MODE == 3 || VK_MODE == 1
       check_faithful(r, q);
@@ -237,8 +247,24 @@ struct X {
     if (w.pk[j].epoch == w.epoch) return req_of(w.pk[j]);
     return w.pk[j].aux;
   }
+  // the exchange ends with the final acknowledgement: once a well-formed PUBACK / PUBCOMP (any listed code) that answers this request's
+  // packet was consumed by the client, the request has completed (nothing is retransmitted for it any more)
+  void check_exchange_ends() {
+    for (int a = 0; a < nacks; a++) {
+      const ack_t& k = acks[a]; if (!k.valid || !k.answers || !k.consumed || k.parked) continue;
+      if (k.type != ref::PUBACK && k.type != ref::PUBCOMP) continue;
+      if (k.epoch == bad_epoch) continue;      // the client gives up a connection on which it saw a malformed / unsolicited packet: what arrives there afterwards need not count
+      int rq = -1;
+      for (int j = 0; j < k.after_pk && j < w.npk; j++) if (w.pk[j].type == ref::PUBLISH && w.pk[j].pid == k.pid) rq = req_of_any(j);   // the latest exchange with that identifier
+      if (rq < 0 || reqs[rq].qos != (k.type == ref::PUBACK ? 1 : 2)) continue;
+      vk_assert(w.ops[reqs[rq].op].done == 1, "the exchange did not end with its final acknowledgement: a well-formed PUBACK / PUBCOMP was consumed and the publish is still outstanding");
+    }
+  }
   // ---- application monitors
   void check_completions() {
+#if VK_MODE == 3 || VK_MODE == 2
+    check_exchange_ends();
+#endif
     for (int i = 0; i < nreq; i++) {
       const op_rec& o = w.ops[reqs[i].op];
       vk_assert(o.done <= 1, "completion handler invoked more than once");
@@ -323,4 +349,52 @@ extern "C" void h_pub(void) {
 #endif
   int done = 0; for (int i = 0; i < x->nreq; i++) done += w.ops[x->reqs[i].op].done;
   if (done) vk_reach("a-publish-completed");
+}
+
+// C01, guided schedule with forks: an acknowledgement the broker repeats (or sends unsolicited) for a packet identifier whose
+// exchange is over must never complete a later publish that reuses the identifier and has not been written yet - because it sits
+// behind a write in progress, or waits for quota (Receive Maximum 1). The later publish completes only with the acknowledgement
+// the broker sends after it received that PUBLISH, and with its reason code.
+extern "C" void h_pub_stale(void) {
+  W* wp = new W(); W& w = *wp;
+  bool throttled = vk_choose(2);          // B waits for quota behind A2 (Receive Maximum 1) / B waits behind a write in progress
+  static const uint8_t rm1[3] = {0x21, 0, 1};
+  w.start(); w.connect_ok(false, throttled ? rm1 : nullptr, throttled ? 3 : 0);
+  bool q2 = vk_choose(2);                 // both publishes QoS 1 / both QoS 2
+  uint8_t fin = q2 ? ref::PUBCOMP : ref::PUBACK;
+  auto pub = [&](const char* payload) { return q2 ? w.publish<qos_e::exactly_once>("t", payload) : w.publish<qos_e::at_least_once>("t", payload); };
+  auto write_done = [&]() { auto* s = vk::pending_write(); vk_assert(s != nullptr, "harness: a write is in progress"); w.finish_write(s, s->wdata.size(), {}); vk::drain(); };
+  // ---- exchange A runs to its end with identifier 1
+  int a = pub("A"); vk::drain(); write_done();
+  const pkt_rec* pa = w.last_of(ref::PUBLISH); vk_assert(pa && pa->pid == 1, "harness: first publish uses identifier 1");
+  if (q2) { w.ack(ref::PUBREC, 1, 0, 1); w.feed_all(); vk::drain(); write_done(); }
+  w.ack(fin, 1, 0, 1); w.feed_all(); vk::drain();
+  vk_assert(w.ops[a].done == 1 && w.ops[a].ec == 0, "harness: first publish completes");
+  // ---- something keeps B from being written at once
+  int blocker;
+  if (throttled) { blocker = pub("X"); vk::drain(); write_done(); }                         // X (identifier 1 again) is in flight and holds the only unit of quota
+  else { blocker = w.publish<qos_e::at_most_once>("t", "X"); vk::drain(); vk_assert(vk::pending_write() != nullptr, "harness: write in progress"); }
+  int order = vk_choose(2);               // the stale acknowledgement arrives before or after B is initiated
+  uint16_t bpid = throttled ? 2 : 1;      // the identifier B will get
+  auto stale = [&]() { uint8_t t = vk_choose(2) ? fin : (q2 ? ref::PUBREC : fin); w.ack(t, bpid, 0, 1); w.feed_all(); vk::drain(); vk_reach("stale-ack"); };
+  if (throttled) { /* identifier 2 was never used: an unsolicited acknowledgement for it */ }
+  if (order == 0) stale();
+  int b = pub("B"); vk::drain();
+  if (order == 1) stale();
+  vk_assert(!w.ops[b].done, "a publish that has not been written yet completed (with an acknowledgement the broker sent before it received that PUBLISH)");
+  // ---- the blocker goes away, B is written
+  int before = w.npk;
+  if (throttled) { if (q2) { w.ack(ref::PUBREC, 1, 0, 1); w.feed_all(); vk::drain(); write_done(); } w.ack(fin, 1, 0, 1); w.feed_all(); vk::drain(); vk_assert(w.ops[blocker].done == 1, "harness: blocker completes"); }
+  else { write_done(); vk_assert(w.ops[blocker].done == 1, "harness: QoS 0 publish completes"); }
+  vk_assert(!w.ops[b].done, "a publish completed before the broker received it");
+  if (vk::pending_write()) write_done();
+  const pkt_rec* pb = nullptr; for (int i = before; i < w.npk; i++) if (w.pk[i].type == ref::PUBLISH && w.pk[i].qos > 0 && w.pk[i].pid == bpid) pb = &w.pk[i];
+  vk_assert(pb != nullptr, "the second publish was written with the expected identifier once nothing held it back");
+  vk_assert(!w.ops[b].done, "a publish completed with an acknowledgement the broker sent before it received that PUBLISH");
+  // ---- now the broker answers B, with a code of its own
+  uint8_t rc = q2 ? 0x92 : 0x10;
+  if (q2) { w.ack(ref::PUBREC, bpid, 0, 1); w.feed_all(); vk::drain(); write_done(); vk_assert(!w.ops[b].done, "QoS 2 publish completed before PUBCOMP"); }
+  w.ack(fin, bpid, rc, 1); w.feed_all(); vk::drain();
+  vk_assert(w.ops[b].done == 1 && w.ops[b].ec == 0 && w.ops[b].rc == rc, "the publish did not complete with the reason code of the acknowledgement the broker sent for it");
+  vk_reach(throttled ? "second-publish-was-throttled" : "second-publish-was-queued-behind-a-write"); vk_reach("second-checked");
 }
